@@ -556,12 +556,24 @@ impl ReadableDatabase for Database {
     fn begin_read(&self) -> Result<ReadTransaction, TransactionError> {
         #[cfg(redb_verif)]
         crate::verif::pause("X.begin_read");
-        let guard = TransactionGuard::allocate_read(self.transaction_tracker.clone(), &self.mem)?;
-        #[cfg(feature = "logging")]
-        debug!("Beginning read transaction id={:?}", guard.id());
-        #[cfg(redb_verif)]
-        crate::verif::pause("X.begin_read.registered");
-        ReadTransaction::new(self.get_memory(), guard)
+        loop {
+            let guard =
+                TransactionGuard::allocate_read(self.transaction_tracker.clone(), &self.mem)?;
+            #[cfg(feature = "logging")]
+            debug!("Beginning read transaction id={:?}", guard.id());
+            #[cfg(redb_verif)]
+            crate::verif::pause("X.begin_read.registered");
+            // A commit may be published between registering the read and reading the root. The
+            // registered id is what keeps the pages of that transaction from being freed, so the
+            // root must be the one of exactly that transaction: a newer root would leave its pages
+            // unprotected against reclamation by later non-durable commits. Register again, if so
+            let (transaction_id, root) = self
+                .mem
+                .get_last_committed_transaction_id_and_data_root()?;
+            if transaction_id == guard.id() {
+                return ReadTransaction::new_with_root(self.get_memory(), guard, root);
+            }
+        }
     }
 
     fn cache_stats(&self) -> CacheStats {
